@@ -181,16 +181,18 @@ def traverse_graph_with_sampled_series(
     if len(path) == 1:
         return series, path, state
 
-    # Cast the full series
+    # Cast the full series, keeping only the part of the sampled path that the full series follows
     from_type = path[0]
-    for i, to_type in enumerate(path[1:]):
+    validated_path = [from_type]
+    for to_type in path[1:]:
         relation = graph[from_type][to_type]["relationship"]
         if not relation.is_relation(series, state):
             break
         series = relation.transform(series, state)
         from_type = to_type
+        validated_path.append(to_type)
 
-    return series, path[0 : (i + 2)], state
+    return series, validated_path, state
 
 
 @singledispatch
